@@ -708,6 +708,17 @@ def frame_same(img, before):
     return bool(np.array_equal(img, before)) and img.dtype == before.dtype and img.shape == before.shape
 
 
+def frame_diff(img, before):
+    a, b = np.asarray(img, dtype=float), np.asarray(before, dtype=float)
+    if a.shape != b.shape:
+        return f'shape {b.shape} -> {a.shape}'
+    idx = np.argwhere(a != b)
+    if len(idx) == 0:
+        return 'type of the frame changed'
+    i, j = (int(x) for x in idx[0])
+    return f'{len(idx)} pixel(s) rewritten, e.g. ({i},{j}): {b[i, j]!r} -> {a[i, j]!r}'
+
+
 def call_adc(D, c, img, gain):
     before = [list(r) for r in img] if isinstance(img, list) else img.copy()
     try:
@@ -729,7 +740,8 @@ def call_adc(D, c, img, gain):
                 'shape': [int(out.shape[0]), int(out.shape[1])],
                 'dn': [[float(v) for v in row] for row in out.tolist()],
                 'dtype': str(out.dtype),
-                'input_unchanged': frame_same(img, before)}
+                'input_unchanged': frame_same(img, before),
+                'input_change': None if frame_same(img, before) else frame_diff(img, before)}
     except Exception as e:
         return {'err': type(e).__name__, 'input_unchanged': frame_same(img, before)}
 
@@ -1065,7 +1077,7 @@ def oracle(c, impl):
         if impl['warned'] != should_warn:
             return f'adc: saturation warning emitted = {impl["warned"]}, expected {should_warn}'
         if not impl['input_unchanged']:
-            return 'adc modified the input frame'
+            return f'adc modified the input frame: {impl.get("input_change")}'
         if c['dtype'] is not None and impl['dtype'] != str(np.dtype(c['dtype'])):
             return f'adc: output dtype {impl["dtype"]}, requested {c["dtype"]}'
         return None
